@@ -196,10 +196,13 @@ package ggql
 //@   requires recv != nil
 
 //@ func (*Root).getFieldType
-//@   props C03
+//@   props C03 C19
 //@   check panic {C03}
 //@   requires recv != nil
-//@   requires t != nil && ptrval(t) != 0
+//@   requires t != nil ==> ptrval(t) != 0
+//@   ensures[declared]{C19} fdOf(t, name) != nil ==> ft == fdOf(t, name).Type
+//@   ensures[none]{C19} fdOf(t, name) == nil ==> ft == nil
+//@   assigns nothing
 
 //@ func (*ArgValue).Write
 //@   props C03
@@ -241,12 +244,6 @@ package ggql
 //@   props C03
 //@   check panic {C03}
 //@   requires recv != nil
-
-//@ func (*Subscription).prep
-//@   props C03
-//@   check panic {C03}
-//@   requires recv != nil
-//@   requires root != nil
 
 //@ func (*VarDef).Validate
 //@   props C03
